@@ -764,11 +764,33 @@ def run(res, tier, seed, proofs_ok):
                 'conversions of level-0 decks incl. keywords containing "u"; '
                 'non-trivial = >= 2 tokens / cells, for (c) a deck with both '
                 'zero and non-zero cells')
-    corpus(res)
-    all_zero_deck(res)
-    expand_ties(res, rng, 300 if quick else 4000, 200 if quick else 3000)
-    parse_ties(res, rng, 300 if quick else 3000, 200 if quick else 1500)
+    import c12_cov
+    cov = c12_cov.LineCov(c12_cov.anchored_functions())
+    with cov:
+        corpus(res)
+        all_zero_deck(res)
+        expand_ties(res, rng, 300 if quick else 4000, 200 if quick else 3000)
+        parse_ties(res, rng, 300 if quick else 3000, 200 if quick else 1500)
+    coverage_obligation(res, cov)
     conversion_sweep(res, rng, 250 if quick else 2500, 40 if quick else 250)
+
+
+def coverage_obligation(res, cov):
+    import c12_cov
+    total, missing = cov.missing(c12_cov.EXEMPT)
+    res.obligation('coverage: corpus + tie:expand + tie:parse execute every '
+                   f'reachable line of the anchored parser functions ({total} '
+                   f'lines of {len(cov.codes)} code objects)', not missing,
+                   f'never executed: {missing[:6]}')
+    res.extra['anchored_lines'] = total
+    if missing:
+        res.violation('harness-error',
+                      'generated inputs no longer reach these lines of the '
+                      'anchored code (strengthen the generators): '
+                      f'{missing[:8]}',
+                      {'theorem_or_correspondence': 'coverage',
+                       'input': {'lines': [list(m) for m in missing[:20]]}},
+                      found_input=False)
 
 
 def replay(path):
